@@ -373,6 +373,29 @@ fn run_single(name: &str, src: &str) -> Result<(String, String), String> {
     out.ran.get("c00000").cloned().ok_or_else(|| "no result".to_string())
 }
 
+/// deterministic part: async methods of an entraited trait that take `self` by value (default delegation), with and without
+/// `?Send`, next to `&self` / `self: &Self` ones; the future through `Impl<T>` is Send exactly when `?Send` is absent
+fn by_value_lattice() -> Vec<Case> {
+    let mut out = vec![];
+    for (opt, maybe_send) in [("", false), ("?Send", true)] {
+        for with_ref_methods in [false, true] {
+            let refs_decl = if with_ref_methods { "    async fn peek(&self, x: u64) -> u64;\n    async fn typed(self: &Self, x: u64) -> u64;\n" } else { "" };
+            let refs_impl = if with_ref_methods { "    async fn peek(&self, x: u64) -> u64 { rt::yield_once().await; x + 10 }\n    async fn typed(self: &Self, x: u64) -> u64 { rt::yield_once().await; x + 20 }\n" } else { "" };
+            let rc = if maybe_send { "let __rc = Rc::new(5u64); " } else { "" };
+            let use_rc = if maybe_send { "let _ = *__rc; " } else { "" };
+            let send_witness = if maybe_send { "" } else { "    is_send(&Bv::consume(::entrait::Impl::new(P), 1));\n" };
+            let refs_run = if with_ref_methods { "    let r = rt::block_on(Bv::peek(&::entrait::Impl::new(P), 1)) + rt::block_on(Bv::typed(&::entrait::Impl::new(P), 1));\n    rt::expect_eq(&mut fails, \"reference-receiver methods next to a by-value one\", &r, &32u64);\n" } else { "" };
+            let src = format!(
+                "{HEADER}#[::entrait::entrait({opt})]\npub trait Bv {{\n    async fn consume(self, x: u64) -> u64;\n{refs_decl}}}\n#[derive(Clone, Copy)] pub struct P;\nimpl Bv for P {{\n    async fn consume(self, x: u64) -> u64 {{ {rc}rt::yield_once().await; {use_rc}rt::trace(String::from(\"BODY\")); x + 1 }}\n{refs_impl}}}\n\
+                 pub fn run() -> Vec<String> {{\n    let mut fails = vec![];\n    let _ = rt::take();\n    let direct = rt::block_on(Bv::consume(P, 5));\n    let t_direct = rt::take();\n    let via = rt::block_on(Bv::consume(::entrait::Impl::new(P), 5));\n    let t_via = rt::take();\n    rt::expect_eq(&mut fails, \"awaited result of a by-value method through Impl<T> vs the provider\", &via, &direct);\n    rt::expect_eq(&mut fails, \"the body ran to completion exactly once (trace)\", &t_via, &t_direct);\n{send_witness}{refs_run}    fails\n}}\n"
+            );
+            let summary = format!("#[entrait({opt})] trait Bv {{ async fn consume(self, x: u64) -> u64;{} }}", if with_ref_methods { " async fn peek(&self, ..); async fn typed(self: &Self, ..);" } else { "" });
+            out.push(Case { src, positive: true, summary, nontrivial: true, classes: vec!["trait_by_value_receiver", if maybe_send { "?Send" } else { "send_by_default" }] });
+        }
+    }
+    out
+}
+
 pub const TAPE_LEN: usize = 32;
 
 pub fn run(ctx: &mut Ctx) {
@@ -380,7 +403,7 @@ pub fn run(ctx: &mut Ctx) {
                 from deps/self, generic} x {default, ?Send}; positive programs hold compile-time witnesses (is_send on the method's future inside a fn generic over `D: Trait + Sync`, exact \
                 Future::Output ascription, Rc-across-await bodies under ?Send, `&dyn Trait` use for async_trait) and are run to completion against the direct call; negative programs (Rc across an \
                 await without ?Send; the is_send witness under ?Send) must be rejected by rustc and are re-compiled alone before being believed; non-trivial = borrowed/generic return, ?Send, \
-                trait or impl-block input, or a negative probe; distinct = distinct program text"
+                trait or impl-block input, or a negative probe; distinct = distinct program text. Deterministic part: entraited traits whose async method takes `self` by value (x {default, ?Send} x {alone, next to `&self` / `self: &Self` methods})"
         .into();
     let n = ctx.n(1000, 8000) as usize;
     let tapes = crate::drive::gen_tapes(ctx.seed, 1200, n, TAPE_LEN);
@@ -388,6 +411,7 @@ pub fn run(ctx: &mut Ctx) {
     for tp in &tapes {
         cases.extend(gen_cases(&mut Tape::new(tp)));
     }
+    cases.extend(by_value_lattice());
     let mut batch = Batch::new("c12", Opts { feature_unimock: false, members: 16, ..Default::default() });
     for (i, c) in cases.iter().enumerate() {
         batch.add(&format!("c{i:05}"), c.src.clone());
